@@ -124,3 +124,27 @@ def guarded_by_call(fn, bb, slicer, names, outcome=None):
 
 def variant_conds(fn, bb, slicer):
     return [c for c in conditions(fn, bb, slicer) if c.kind == 'variant']
+
+
+def always_through(fn, start, via, ends, skip_edges=()):
+    """every path (normal edges) from block `start` to any block in `ends` passes through block `via`,
+    except paths using one of the `skip_edges` (pairs (src, tgt)); a guard that leaves early under a conjunction /
+    disjunction (`if a && b { continue }`) is invisible to dominance-based conditions but not to this test"""
+    if start == via:
+        return True
+    skip = set(skip_edges)
+    ends = set(ends)
+    seen = set()
+    work = [start]
+    while work:
+        b = work.pop()
+        if b in seen or b == via:
+            continue
+        seen.add(b)
+        if b in ends and b != start:
+            return False
+        for t in fn.succs(b):
+            if (b, t) in skip:
+                continue
+            work.append(t)
+    return True
